@@ -767,7 +767,7 @@ class EventSource(object):
                     if self.dictable:
                         try:
                             ejson = json.loads(edata, object_pairs_hook=dict)
-                        except ValueError as ex:
+                        except (ValueError, RecursionError) as ex:  # invalid or too deeply nested
                             ejson = None
                         else:  # valid json set edata to ejson
                             edata = ejson
@@ -1077,5 +1077,5 @@ class Parsent(object):
             try:
                 self.data = json.loads(self.body.decode('utf-8'),
                                        object_pairs_hook=dict)
-            except ValueError as ex:
+            except (ValueError, RecursionError) as ex:  # invalid or too deeply nested
                 self.data = None
